@@ -36,6 +36,11 @@
 (*    containers, absent required containers (absent = empty tolerated),    *)
 (*    a field with env= set (the variable's value, the document's value     *)
 (*    or an error);                                                         *)
+(*  - containers nest (slice of / map of / pointer to, in any order): the   *)
+(*    relation of the flat containers holds at every level - see            *)
+(*    ShapeAllowed: an element is exact, a node of the wrong sort (a        *)
+(*    scalar where a list is expected and vice versa) must fail at any      *)
+(*    depth.                                                                *)
 (*  - only "no panic" is required (any = TRUE) for: null, a bare number or  *)
 (*    unit-less numeric string into a Duration, a number into a string      *)
 (*    field, 0 / 1 into a bool.                                             *)
@@ -340,6 +345,69 @@ SeqAllowed(k, items) == SeqAllowedM(k, items, "typed")
 \* a slice field whose tag declares default=[e1,e2]: the elements are tag text
 DefaultSeqAllowed(k, items) == SeqAllowedM(k, items, "text")
 
+\* --------------------------------------------------------------- container shapes
+\* "pointers, slices, maps and their nesting": the type of a member is a WORD over the constructors
+\*     S  slice of      M  map[string] of      P  pointer to
+\* applied to an element kind:  <<"M","P","S">> over int  =  map[string]*[]int.
+\* Its document is a TREE: a leaf (a literal), an array of trees, an object of trees (the keys of an
+\* object are given by position and never matter).  The relation is the one of the flat containers
+\* above, applied at every level:
+\*   - a leaf where the word is used up: the element relation (ElemOutcome);
+\*   - P is transparent (a pointer member holds the address of what its document names);
+\*   - S wants an array, M wants an object; anything else there - a scalar, a bool, a string, the
+\*     other container - is ill-typed and must fail; null: the statement is silent (no panic);
+\*   - a container fails if one of its elements must fail, otherwise it holds exactly the elements;
+\*   - a leaf slot that holds a container is ill-typed as well (a list where a scalar is expected).
+\* Nothing here depends on WHICH containers are nested or on where the ill-typed node sits.
+Ctors == {"S", "M", "P"}
+Leaf(l) == [n |-> "leaf", lit |-> l, items |-> <<>>]
+Arr(items) == [n |-> "arr", lit |-> NoLit, items |-> items]
+Obj(items) == [n |-> "obj", lit |-> NoLit, items |-> items]
+Containers(ty) == Cardinality({i \in 1..Len(ty) : ty[i] # "P"})
+
+AnyVal == [v |-> "any", text |-> "", ms |-> 0]
+TreeVal(n, vals) == [v |-> IF n = "arr" THEN "list" ELSE "dict", text |-> "", ms |-> 0, items |-> vals]
+
+RECURSIVE ShapeAllowed(_, _, _)
+ShapeAllowed(ty, k, node) ==
+  IF ty = <<>> THEN (IF node.n = "leaf" THEN ElemOutcome(k, node.lit) ELSE MustErr)
+  ELSE IF Head(ty) = "P" THEN ShapeAllowed(Tail(ty), k, node)
+  ELSE IF node.n = "leaf" THEN (IF node.lit.class = "null" THEN ErrOrAny ELSE MustErr)
+  ELSE IF (Head(ty) = "S") # (node.n = "arr") THEN MustErr
+  ELSE LET idx == 1..Len(node.items)
+           os == [i \in idx |-> ShapeAllowed(Tail(ty), k, node.items[i])]
+       IN IF \E i \in idx : IsMustErr(os[i]) THEN MustErrW(os[CHOOSE i \in idx : IsMustErr(os[i])].why)
+          ELSE [err |-> \E i \in idx : os[i].err,
+                ok |-> \A i \in idx : os[i].ok \/ os[i].any,
+                any |-> \E i \in idx : os[i].any,
+                val |-> TreeVal(node.n, [i \in idx |-> IF os[i].ok /\ ~os[i].any THEN os[i].val ELSE AnyVal]),
+                alt |-> NoVal, why |-> ""]
+
+\* How the tree reaches the member:
+\*   form "tree": as structure (JSON / YAML / map[string]any);
+\*   form "text": as its JSON text inside one string - the only way a form, path or header value
+\*                can carry a container, and what a typed document delivers when the member is
+\*                written as a string.
+\* A text source must take a one-level container written that way (it has no other spelling); how
+\* deeper nestings are written in a single form value, and whether a typed document may write a
+\* container as a string at all, the statement does not say: error or the exact value.  In every
+\* case: never a panic, never an ill-typed or wrapped element accepted.
+ShapeAllowedFrom(ty, k, node, src, form) ==
+  LET a == ShapeAllowed(ty, k, node)
+  IN IF form = "tree" \/ (src = "text" /\ Containers(ty) = 1) THEN a ELSE Weaken(a)
+
+RECURSIVE Structural(_, _)
+Structural(ty, node) ==                      \* the tree has the structure of the word (leaves not looked at)
+  IF ty = <<>> THEN node.n = "leaf"
+  ELSE IF Head(ty) = "P" THEN Structural(Tail(ty), node)
+  ELSE /\ node.n = (IF Head(ty) = "S" THEN "arr" ELSE "obj")
+       /\ \A i \in 1..Len(node.items) : Structural(Tail(ty), node.items[i])
+RECURSIVE NullFree(_)
+NullFree(node) == IF node.n = "leaf" THEN node.lit.class # "null"
+                  ELSE \A i \in 1..Len(node.items) : NullFree(node.items[i])
+RECURSIVE AllYaml(_)
+AllYaml(node) == IF node.n = "leaf" THEN node.lit.yaml ELSE \A i \in 1..Len(node.items) : AllYaml(node.items[i])
+
 \* --------------------------------------------------------------- independence of calls
 \* "absent fields take their declared default", "every field equals the document's value": the
 \* clauses speak about each call on its own, so Allowed has no history argument.  Whatever was
@@ -417,6 +485,16 @@ T_RoundTrip(k, o, l, a) ==                   \* a request value is never silentl
   /\ ((OutsideRange(l, o) \/ OutsideOptions(l, o)) /\ ~(o.optional /\ RTZero(k, l))) => IsMustErr(a)
   /\ (~OutsideRange(l, o) /\ ~OutsideOptions(l, o)) => a.ok
   /\ (o.options = {} /\ ~o.range.on) => (a.ok /\ (a.err => k \in {"uint64", "uint"}))
+\* container shapes: a = the outcome for the document as it reaches the member, b = ShapeAllowed of its tree
+T_Shape(ty, node, a, b, form) ==
+  /\ T_NonEmpty(a)
+  \* a scalar where a list is expected (and a list where a scalar is expected) is never accepted,
+  \* however the document reaches the member
+  /\ (NullFree(node) /\ ~Structural(ty, node)) => IsMustErr(a)
+  /\ (a.ok \/ a.any) => (Structural(ty, node) \/ ~NullFree(node))
+  \* the spelling never turns "must fail" into "may pass" or back; the structured form is the relation itself
+  /\ IsMustErr(b) <=> IsMustErr(a)
+  /\ (form = "tree" => a = b)
 T_PointsOrdered == \A i, j \in 1..Len(Points) : (i # j) => Points[i] # Points[j]
 
 =============================================================================
